@@ -1,278 +1,102 @@
-"""C06 hunt (run on the UNMODIFIED tree):
-    cd /tmp/wt/C06g && PYTHONPATH=/tmp/wt/C06g/src /venv/bin/python hunt_C06.py [scale]
+"""C06 hunt (round 3) on the UNMODIFIED tree.
 
-Searches for specifiers s reachable from parse_version_specifier and &, |, ~ with
-  (a) str(s) raising, (b) parse(str(s)) raising or != s,
-  (c) packaging's reading of str(s) (split on `||`) differing, on FINAL versions, from a
-      direct evaluation of s's bounds with packaging.version ordering.
-Known families are filtered: exclusive upper bound at a post-release (`<2.0.post1`
-rendered `~=`/`!=X.*`), `===`, `+local`; (c) only probes final versions, so the
-pre-release-gap family does not show.
-
-Streams:
-  1. random expression trees over canonical versions (epochs, trailing zeros, pre/post/dev)
-  2. random expression trees over exotic PEP 440 spellings (v prefix, leading zeros,
-     alpha/preview/rev/r/-N, separators, upper case, implicit numbers, 20-digit ints,
-     blanks and tabs around operators and commas)
-  3. ladder of 837 versions (31 releases x 9 suffixes x 3 epochs): a 25% sample of all
-     pairs, 4 bound-flag combinations, intersection, union and both complements
-  4. hand-built cases (wildcards of several depths, ~= with many segments, epoch-only
-     differences, zero releases, `<1||>=1.0.0.1`-style padding, three-piece unions)
-Prints every new violation, or the case counts if there is none.
+Result: no new violation INSIDE the property's quantifier (specifiers reachable from the
+parsers and the operators &, |, ~).  What is printed below are BORDERLINE observations,
+each labelled with the reason it is borderline.  Run:
+    cd /tmp/wt/C06i && PYTHONPATH=/tmp/wt/C06i/src /venv/bin/python hunt_C06.py
 """
 
 from __future__ import annotations
 
-import random
-import re
-import sys
-
-from packaging.specifiers import InvalidSpecifier as PI
 from packaging.specifiers import SpecifierSet
 from packaging.version import Version
 
-from dep_logic.specifiers import parse_version_specifier as P
-
-SCALE = float(sys.argv[1]) if len(sys.argv) > 1 else 1.0
-found: list[str] = []
-counts = {"random": 0, "exotic": 0, "ladder": 0, "hand": 0, "semantic-probes": 0, "known(3)": 0}
-
-
-def ranges_of(s):
-    return list(getattr(s, "ranges", [s])) if not (s.is_empty() or s.is_any()) else []
+from dep_logic.specifiers import (
+    RangeSpecifier,
+    UnionSpecifier,
+    parse_version_specifier as P,
+)
 
 
-def known_family(s) -> bool:
-    return any(
-        r.max is not None and r.max.is_postrelease and not r.include_max
-        for r in ranges_of(s)
-    )
-
-
-def direct(s, v: Version) -> bool:
-    if s.is_empty():
-        return False
-    if s.is_any():
-        return True
-    for r in ranges_of(s):
-        ok = True
-        if r.min is not None:
-            ok = ok and (v >= r.min if r.include_min else v > r.min)
-        if r.max is not None:
-            ok = ok and (v <= r.max if r.include_max else v < r.max)
-        if ok:
-            return True
-    return False
-
-
-def text_admits(text: str, v: Version) -> bool:
+def pk_union(text: str, v: str) -> bool:
+    """packaging's reading of a `||` text, pre-releases enabled."""
     if text == "<empty>":
         return False
     return any(SpecifierSet(p).contains(v, prereleases=True) for p in text.split("||"))
 
 
-FINALS = [
-    Version(e + r)
-    for e in ["", "1!", "2!"]
-    for r in "0 0.1 0.9 0.10 1 1.0.1 1.0.0.1 1.1 1.2 1.2.3 1.2.4 1.9 1.10 2 2.0.1 2.1 3 3.3.3 9 9.1.1 9.2 10 10.0.1".split()
-]
+print("=" * 78)
+print("B1 (borderline, neighbour of known families 6/10: only pre-releases differ)")
+print("    a COMPUTED union `<X.0||>=(X+1).0` is shortened to `!=X.*`; packaging reads")
+print("    that text as also admitting the pre-releases of (X+1).0")
+for src in ["<1.0||>=2.0", "<3.8.0||>=3.9.0"]:
+    s = ~~P(src)
+    text = str(s)
+    hi = str(s.ranges[1].min)
+    for v in [f"{hi}.dev0", f"{hi}a1", f"{hi}rc1"]:
+        print(
+            f"    s=~~parse({src!r}) str(s)={text!r} v={v}: library s.contains={s.contains(v, True)}, "
+            f"library parse(str(s)).contains={P(text).contains(v, True)}, "
+            f"packaging on the pieces of {src!r}={pk_union(src, v)}, "
+            f"packaging on the rendered text={pk_union(text, v)}"
+        )
+    print(f"    (parse(str(s)) == s is {P(text) == s}: the library's own round trip holds)")
 
+print("=" * 78)
+print("B2 (borderline, same neighbourhood): equal specifiers that answer contains() differently")
+a, b = P("==1.*"), ~~P("==1.*")
+print(f"    a=parse('==1.*') str={str(a)!r}; b=~~a str={str(b)!r}; a==b is {a == b}")
+for v in ["1.0.dev0", "1.0a1"]:
+    print(
+        f"    v={v}: a.contains={a.contains(v, True)} b.contains={b.contains(v, True)} "
+        f"packaging '==1.*'={SpecifierSet('==1.*').contains(v, prereleases=True)} "
+        f"packaging '~=1.0'={SpecifierSet('~=1.0').contains(v, prereleases=True)}"
+    )
+print("    (each of a and b round-trips through its own text; the text changes across ~~)")
 
-def check(s, desc: str, stream: str, semantic: bool = True) -> None:
-    counts[stream] += 1
+print("=" * 78)
+print("B3 (outside the quantifier: objects built with the public constructors, not reachable")
+print("    from the parsers/operators) - the constructors do not validate their bounds")
+V = Version
+for label, make in [
+    ("RangeSpecifier(min=1.0, max=1.0, include_min=True)  [empty set]",
+     lambda: RangeSpecifier(min=V("1.0"), max=V("1.0"), include_min=True)),
+    ("RangeSpecifier(min=2.0, max=1.0, include_min=True)  [empty set]",
+     lambda: RangeSpecifier(min=V("2.0"), max=V("1.0"), include_min=True)),
+    ("UnionSpecifier((RangeSpecifier(min=1.0),))           [one range]",
+     lambda: UnionSpecifier((RangeSpecifier(min=V("1.0")),))),
+    ("UnionSpecifier((>=2.0, <1.0))                        [unsorted]",
+     lambda: UnionSpecifier((RangeSpecifier(min=V("2.0"), include_min=True), RangeSpecifier(max=V("1.0"))))),
+]:  # fmt: skip
+    s = make()
     try:
         text = str(s)
-    except Exception as e:  # noqa: BLE001
-        found.append(f"[{stream}] {desc}: str() raised {type(e).__name__}: {e}")
-        return
-    try:
         back = P(text)
+        print(f"    {label}: str={text!r} parses to {back!r}; equal={back == s}")
     except Exception as e:  # noqa: BLE001
-        found.append(f"[{stream}] {desc}: {text!r} does not parse back: {type(e).__name__}: {e}")
-        return
-    if known_family(s):
-        counts["known(3)"] += 1
-        return
-    if back != s:
-        found.append(f"[{stream}] {desc}: {text!r} parses back to {back!r}, expected {s!r}")
-        return
-    if semantic:
-        for v in FINALS:
-            counts["semantic-probes"] += 1
-            lib, pk = direct(s, v), text_admits(text, v)
-            if lib != pk:
-                found.append(
-                    f"[{stream}] {desc}: bounds say {v} {'in' if lib else 'not in'} s, "
-                    f"packaging reads {text!r} the other way"
-                )
-                break
+        print(f"    {label}: {type(e).__name__}: {e}")
 
-
-# ---------------------------------------------------------------- stream 1
-def stream_random(seed: int, n: int) -> None:
-    rnd = random.Random(seed)
-
-    def ver(suffix=True):
-        k = rnd.choice([1, 2, 2, 3, 3, 4])
-        s = ".".join(str(rnd.choice([0, 0, 1, 1, 2, 3, 9, 10])) for _ in range(k))
-        if rnd.random() < 0.15:
-            s = f"{rnd.choice([1, 2])}!" + s
-        if suffix and rnd.random() < 0.3:
-            s += rnd.choice(["a1", "b2", "rc1", ".post1", ".dev1", ".post0", ".dev0", "a0", ".post2.dev1", "rc1.post1"])
-        return s
-
-    def atom():
-        op = rnd.choice(["<", "<=", ">", ">=", "==", "!=", "~=", "==*", "!=*"])
-        if op.endswith("*"):
-            return op[:2] + ver(False) + ".*"
-        if op == "~=":
-            while True:
-                v = ver()
-                if len(Version(v).release) >= 2:
-                    return "~=" + v
-        return op + ver()
-
-    def gen(depth=0):
-        r = rnd.random()
-        if depth > 2 or r < 0.4:
-            t = ",".join(atom() for _ in range(rnd.choice([1, 1, 2, 2, 3])))
-            return P(t), t
-        if r < 0.6:
-            (a, ta), (b, tb) = gen(depth + 1), gen(depth + 1)
-            return a & b, f"({ta}) & ({tb})"
-        if r < 0.85:
-            (a, ta), (b, tb) = gen(depth + 1), gen(depth + 1)
-            return a | b, f"({ta}) | ({tb})"
-        a, ta = gen(depth + 1)
-        return ~a, f"~({ta})"
-
-    for i in range(n):
-        s, desc = gen()
-        check(s, desc, "random", semantic=(i % 4 == 0))
-
-
-# ---------------------------------------------------------------- stream 2
-def stream_exotic(seed: int, n: int) -> None:
-    rnd = random.Random(seed)
-
-    def num():
-        return rnd.choice(["0", "1", "2", "3", "10", "01", "00", "007", "20240101", "99999999999999999999"])
-
-    def sep():
-        return rnd.choice(["", ".", "-", "_"])
-
-    def ver():
-        s = rnd.choice(["v", "V"]) if rnd.random() < 0.15 else ""
-        if rnd.random() < 0.2:
-            s += num() + "!"
-        s += ".".join(num() for _ in range(rnd.choice([1, 2, 2, 3, 3, 4, 5])))
-        if rnd.random() < 0.3:
-            s += sep() + rnd.choice(["a", "b", "c", "rc", "alpha", "beta", "pre", "preview", "A", "RC", "Alpha"])
-            s += sep() * (rnd.random() < 0.3) + rnd.choice(["", "0", "1", "02"])
-        if rnd.random() < 0.3:
-            if rnd.random() < 0.3:
-                s += "-" + num()
-            else:
-                s += sep() + rnd.choice(["post", "rev", "r", "POST", "Rev"])
-                s += sep() * (rnd.random() < 0.3) + rnd.choice(["", "0", "1", "02"])
-        if rnd.random() < 0.3:
-            s += sep() + rnd.choice(["dev", "DEV", "Dev"]) + sep() * (rnd.random() < 0.3) + rnd.choice(["", "0", "1", "02"])
-        return s
-
-    def atom():
-        op = rnd.choice(["<", "<=", ">", ">=", "==", "!=", "~=", "==*", "!=*"])
-        ws = rnd.choice(["", " ", "  ", "\t"])
-        if op.endswith("*"):
-            m = re.match(r"^[vV]?(?:\d+!)?\d+(?:\.\d+)*", ver())
-            return op[:2] + ws + m.group(0) + ".*"
-        return op + ws + ver()
-
-    def gen(depth=0):
-        r = rnd.random()
-        if depth > 2 or r < 0.4:
-            while True:
-                t = rnd.choice([",", " , ", ", "]).join(atom() for _ in range(rnd.choice([1, 1, 2, 2, 3])))
-                try:
-                    SpecifierSet(t)
-                except PI:
-                    continue
-                return P(t), t
-        if r < 0.6:
-            (a, ta), (b, tb) = gen(depth + 1), gen(depth + 1)
-            return a & b, f"({ta}) & ({tb})"
-        if r < 0.85:
-            (a, ta), (b, tb) = gen(depth + 1), gen(depth + 1)
-            return a | b, f"({ta}) | ({tb})"
-        a, ta = gen(depth + 1)
-        return ~a, f"~({ta})"
-
-    for _ in range(n):
-        try:
-            s, desc = gen()
-        except Exception as e:  # noqa: BLE001  - wrong exception type while parsing/combining
-            found.append(f"[exotic] building raised {type(e).__name__}: {e}")
-            continue
-        check(s, desc, "exotic", semantic=False)
-
-
-# ---------------------------------------------------------------- stream 3
-def stream_ladder(fraction: float) -> None:
-    rels = "0 0.0 0.0.0 0.1 0.9 0.10 1 1.0 1.0.0 1.0.0.0 1.0.1 1.0.0.1 1.1 1.1.0 1.2 1.2.0 1.2.1.0 1.9 1.10 1.10.0 2 2.0 2.0.0 2.1 3 3.0.0 1.2.3 1.2.4 1.2.4.0 1.3 1.3.0".split()
-    sufs = ["", "a1", "rc2", ".post1", ".dev3", ".post0", ".dev0", "a1.dev1", ".post1.dev1"]
-    vers = [e + r + s for e in ["", "1!", "2!"] for r in rels for s in sufs]
-    rnd = random.Random(5)
-    for a in vers:
-        for b in vers:
-            if rnd.random() > fraction:
-                continue
-            for lo in (">=", ">"):
-                for hi in ("<", "<="):
-                    s = P(lo + a) & P(hi + b)
-                    u = P(hi + a) | P(lo + b)
-                    check(s, f"{lo}{a} & {hi}{b}", "ladder", False)
-                    check(u, f"{hi}{a} | {lo}{b}", "ladder", False)
-                    check(~s, f"~({lo}{a} & {hi}{b})", "ladder", False)
-                    check(~u, f"~({hi}{a} | {lo}{b})", "ladder", False)
-
-
-# ---------------------------------------------------------------- stream 4
-def stream_hand() -> None:
-    texts = [
-        "!=1.0,!=1.0", "!=1.*,!=2.*", "==v1.*", "~=v1.2", "~=V01.02.RC1", " >= 1.0 , < 2 ",
-        "!=1!0.*", "==0.*", "!=0.*", ">=0", "<=0", "<1||>=1.0.0.1", "<1.0||>=1.0.0.1.0",
-        "<1!0||>=1!1", "<1!0||>=2!0", "<1!0.0||>=2!0.0", ">=5,<1!0", ">=5,<1!0.0", "<0.9.0||>=0.10",
-        "<=1.0||>1.0.post0", ">=1.0,<1.0.1", "~=1.0.0.0.0", ">=1.0.0.0,<1.0.1",
-        "==1.0.0.*,!=1.0.0.0", "<2||>=2.0.1", "<2.0.0||>=2.0.1.0", ">=1.2,<1.3.0", ">=1.2.0,<1.3",
-        ">=1.2.0,<1!1.3", ">=1!1.2.0,<1!1.3", "~=1!2.3", "==1!2.*", ">=1.9.0,<1.10", ">=1.2.3.4,<1.2.4",
-        "<1.2||>=1.2.1.0", "<1.2.0||>=1.3", "<1.2||>=1.3", "<1.2.0.0||>=1.3", "<1||>=2", "<1.0||>=2",
-        ">=1.0.dev1,<2", ">=1.0.post1,<2", ">=1.0a1.post1.dev2,<2.0.0", "<1.0||>=2.0.post1",
-        "<1.0||>=2.0a1", "<1.0||>=2.0.dev1", "<1.0rc1||>=2.0",
-    ]
-    extra = [P(">=5"), P("<5"), P("!=1.5"), P("==1!0.*"), P("~=0.5.0")]
-    for t in texts:
-        s = P(t)
-        for x, d in [(s, t), (~s, f"~({t})"), (~~s, f"~~({t})")]:
-            check(x, d, "hand")
-            for e in extra:
-                check(x | e, f"({d}) | {e}", "hand")
-                check(x & e, f"({d}) & {e}", "hand")
-                check(~(x & e) | e, f"~(({d}) & {e}) | {e}", "hand")
-
-
-stream_hand()
-for seed in range(4):
-    stream_random(seed, int(25000 * SCALE))
-for seed in range(2):
-    stream_exotic(100 + seed, int(20000 * SCALE))
-stream_ladder(0.02 * SCALE)
-
-print("cases:", counts)
-if found:
-    print(f"{len(found)} NEW violations:")
-    seen = set()
-    for f in found:
-        if f not in seen:
-            seen.add(f)
-            print("  " + f)
-    sys.exit(1)
-print("no new C06 violation found")
+print("=" * 78)
+print(
+    """Areas covered without finding a violation inside the quantifier (unmodified tree):
+  * line-by-line reading of range.py (_simplified_form, __str__, __and__, __or__, __invert__,
+    can_combine/is_adjacent_to/is_strictly_lower), union.py (_simplified_form both branches,
+    __and__ product order, __or__ merge loop, __invert__), specifiers/__init__.py (wildcard
+    bounds, ~= upper bound, epoch handling, `simplified` carry-over, `||`/<empty>), special.py
+    (Any/Empty dunder methods, ==/hash across classes), arbitrary.py, utils.pad_zeros /
+    first_different_index, and the users of the text form (MarkerExpression.from_specifier,
+    EnvSpec.as_dict/from_spec).
+  * ~40 hand-built shapes: epochs on one/both bounds, 1..6 release segments, trailing zeros,
+    leading zeros, `v` prefix, upper case and alternative spellings (-1, _post_, alpha, c),
+    implicit numbers (1.0a, 1.0.dev), dev/pre/post lower bounds under ~=, wildcards of depth 1-4
+    with and without epoch, `!=0.*`, `~=0.0`, adjacent/overlapping `||` pieces, Any/Empty mixes.
+  * random fuzzer 1 (parse + &,|,~ trees, structural round trip + hash): 190 000 trees;
+    every failure was known family 3 (exclusive post-release upper bound rendered ~=).
+  * random fuzzer 2 (exotic spellings, 2**70 segments, whitespace, 4-piece `||`, str stability):
+    120 000 trees, 0 failures outside family 3.
+  * semantic fuzzer (expression tree evaluated by packaging on final releases around every
+    bound vs packaging's reading of str(result) vs the library's contains): 45 000 trees,
+    2.4 million membership checks, 0 differences.
+  * MarkerExpression.from_specifier(name, s).specifier == s and parse_marker(str(marker)) for
+    python_version / python_full_version / platform_release: 75 000 simple specifiers, 0 differences."""
+)
